@@ -568,11 +568,6 @@ public:
 
 	iterator erase(const_iterator first, const_iterator last)
 	{
-		if (first == begin() && last == end())
-		{
-			clear();
-			return end();
-		}
 		if (first == last)
 		{
 			return IteratorProxy(mHashMultiMap.MakeMutableIterator(
@@ -584,8 +579,14 @@ public:
 				return erase(first);
 			typename HashMultiMap::ConstKeyIterator keyIter =
 				ConstIteratorProxy::GetBaseIterator(first).GetKeyIterator();
-			if (last == ConstIteratorProxy(mHashMultiMap.MakeIterator(keyIter, keyIter->GetCount())))
+			if (first == ConstIteratorProxy(mHashMultiMap.MakeIterator(keyIter, 0))
+				&& last == ConstIteratorProxy(mHashMultiMap.MakeIterator(keyIter, keyIter->GetCount())))
 				return IteratorProxy(mHashMultiMap.MakeIterator(mHashMultiMap.RemoveKey(keyIter)));
+		}
+		if (first == begin() && last == end())
+		{
+			clear();
+			return end();
 		}
 		throw std::invalid_argument("invalid unordered_multimap erase arguments");
 	}
